@@ -47,6 +47,63 @@ def renaming_histories(n, seed):
     return len(meta), fails
 
 
+def merge_histories(n, seed):
+    """directed histories: a head made by insert_block_and_control_blocks over all arcs into two blocks (so a
+    successor entered by two arcs has two values in its table), then several of the head's own arcs merged
+    into one new block (insert_SyntheticExit / insert_SyntheticTail / join_tails_and_exits): the table must
+    keep every key and send it to the new block"""
+    from harness import gen
+    rng = random.Random(seed * 977 + 61)
+    drv = common.Driver()
+    lines, meta = [], []
+    tried = 0
+    while len(meta) < n and tried < n * 20:
+        tried += 1
+        succ = gen.rand_closed(rng, rng.randint(4, 8))
+        names = [str(i) for i in range(len(succ))]
+        cand = [j for j in range(1, len(succ)) if sum(j in s for s in succ) >= 1]
+        if len(cand) < 2:
+            continue
+        s2 = rng.sample(cand, 2)
+        preds = [i for i, s in enumerate(succ) if set(s) & set(s2)]
+        if sum(len([t for t in succ[i] if t in s2]) for i in preds) < 3:
+            continue                                   # some successor has to be entered by two arcs
+        scfg = export.mk_scfg(succ)
+        top = scfg.region.name
+        a1, _ = edits.apply_real(scfg, ("insert_ctl", "mhead", [names[i] for i in preds], [names[j] for j in s2]))
+        if a1 is not None or "mhead" not in scfg.graph:
+            continue
+        tgts = list(dict.fromkeys(scfg.graph["mhead"]._jump_targets))
+        if len(tgts) < 2:
+            continue
+        r = rng.random()
+        if r < 0.4:
+            op = ("insert_block", "synth_exit", "mnew", ["mhead"], tgts)
+        elif r < 0.7:
+            op = ("insert_block", "synth_tail", "mnew", ["mhead"], tgts)
+        else:
+            op = ("join_tails_exits", ["mhead"], tgts)
+        _, before = export.export(scfg)
+        a2, _ = edits.apply_real(scfg, op)
+        if a2 is not None:
+            continue
+        _, after = export.export(scfg)
+        # static clause (tables name successors) and dynamic clause (no path reaches a branching block with a
+        # value that is not a key: the closed-set exploration `ctlOK`), before and after the merge
+        lines += [f"G {top} {before}", f"H {top} {after}", "SPEC tables_preserved",
+                  f"H {top} {before}", "CHK", f"H {top} {after}", "CHK"]
+        meta.append(("merge-after-ctl", op, before, after))
+    rep = drv.run(lines) if lines else []
+    fails = []
+    for k, m in enumerate(meta):
+        r = rep[7 * k: 7 * k + 7]
+        ctl_before = "ctl=1" in r[4].split()
+        ctl_after = "ctl=1" in r[6].split()
+        if r[2] != "1" or (ctl_before and not ctl_after):
+            fails.append(m)
+    return len(meta), fails
+
+
 def twin_runs(ctx):
     """A second graph obtained from the first one (dictionary write/read, or a copy of its block
     table) holds the same value-table objects unless somebody copies them: restructuring the first
@@ -100,6 +157,10 @@ def run(ctx):
     res["coverage"]["renaming_failures"] = len(fails)
     res["coverage"]["rule"] += "; plus random edit operations (insert_block, insert_block_and_control_blocks, join_returns, " \
                                "join_tails_and_exits) on restructured real hierarchies, table agreement of pre-existing branching blocks re-checked after each"
+    n2, fails2 = merge_histories((300 * common.boost()) if ctx["tier"] == "quick" else 8000, ctx["seed"])
+    res["coverage"]["merge_after_control_block_histories"] = n2
+    res["coverage"]["renaming_failures"] += len(fails2)
+    fails = fails + fails2
     if fails:
         kind, op, before, after = min(fails, key=lambda m: len(m[2]))
         res["violations"].append({
